@@ -2,7 +2,7 @@
 from fractions import Fraction as Fr
 import algebra as A
 from algebra import El, ZERO, ONE
-from core import (Harness, sv, sm, sq, ss, Run, Conv, run_specs, report_dropped, ret_leaves, cmp_struct, single_ret, flat, parse_guard, _path_eq_pairs)
+from core import (Harness, sv, sm, sq, ss, Run, Conv, run_specs, report_dropped, ret_leaves, cmp_struct, single_ret, flat, parse_guard, _path_eq_pairs, paths_agree)
 import facts
 import specs
 from specs import TWO_PI
@@ -74,6 +74,8 @@ def axis_nonzero(axis, a, eqs):
                 zero[m[0][0]] = ZERO
     Ns = A.substitute(N, zero).norm()
     a2 = A.substitute(A.dot(a, a), zero).norm()
+    if a2.zero():
+        return True, 'the zero tests of the path force a = 0 (outside the quantifier: non-zero vectors)'
     if not Ns.zero() and A.eq(Ns, a2):
         return True, 'components tested zero force |w|^2 = |a|^2'
     return False, '|w|^2 = %s under the zero tests of the path; no component of w tested non-zero' % A.show(Ns, 6)
@@ -193,8 +195,12 @@ def check_deleg(run, S, name, spec, kw):
         return
     cv = Conv(S)
     ok, msg = trees_equal(S, cv, rc['out'], rr['out'])
-    run.ob('%s:%s:delegation' % (PROP, PAIR['code']), ok, rule='K6 delegation equality', expected='Basis3::between_vectors(a,b) == Basis3::from(Quaternion::between_vectors(a,b)) leaf by leaf',
-           found='equal' if ok else msg, where=rc.get('span'))
+    if ok:
+        run.ob('%s:%s:delegation' % (PROP, PAIR['code']), True, rule='K6 delegation equality', expected='Basis3::between_vectors(a,b) == Basis3::from(Quaternion::between_vectors(a,b)) leaf by leaf',
+               found='equal', where=rc.get('span'))
+    else:
+        # not the same tree (the code special-cases something): equal on every pair of compatible paths
+        paths_agree(run, S, '%s:%s:delegation' % (PROP, PAIR['code']), rc['out'], rr['out'], 'K6 delegation equality, path by path: Basis3::between_vectors(a,b) == Basis3::from(Quaternion::between_vectors(a,b))', where=rc.get('span'))
 
 
 def check_b2(run, S, name, spec, kw):
